@@ -263,6 +263,69 @@ Proof.
 Qed.
 End Membership.
 
+(* ---------- exp o log = id on SO(3) away from angle pi ---------- *)
+(* Rodrigues form of a rotation in terms of its skew part: (tr R + 1)(R + R^T - 2I) = (R - R^T)^2 *)
+Lemma rotation_sym_from_skew (r : M3R) : SO3 r ->
+  mscale (tr r + 1) (msub (madd r (mt r)) (mscale 2 I3)) = mm (msub r (mt r)) (msub r (mt r)).
+Proof.
+  intros [O D]. pose proof (Orth_scalars r O) as S.
+  destruct r as [a b c d e f g h i]. destruct S as (c1&c2&c3&c12&c13&c23&r1&r2&r3&r12&r13&r23).
+  lin_unfold. apply M3_ext; cbn; nsatz.
+Qed.
+
+Lemma hat_skew_part (r : M3R) : hat (skew_part r) = mscale (1 / 2) (msub r (mt r)).
+Proof. destruct r as [a b c d e f g h i]. lie_unfold. apply M3_ext; cbn; field. Qed.
+Lemma nrm2_skew_part (r : M3R) : SO3 r -> nrm2 (skew_part r) = 1 - cos_angle r * cos_angle r.
+Proof.
+  intros [O D]. pose proof (Orth_scalars r O) as S.
+  destruct r as [a b c d e f g h i]. destruct S as (c1&c2&c3&c12&c13&c23&r1&r2&r3&r12&r13&r23).
+  pose proof (rot_key a b c d e f g h i c1 c2 c3 c12 c13 c23 r1 r2 r3 r12 r13 r23) as K.
+  lie_unfold. specialize (K D). field_simplify. field_simplify in K. nra.
+Qed.
+Lemma rodrigues_vscale (k : V3R) (l A B : R) :
+  rodrigues (vscale l k) A B = madd (madd I3 (mscale (A * l) (hat k))) (mscale (B * l * l) (mm (hat k) (hat k))).
+Proof. destruct k as [x y z]. lie_unfold. apply M3_ext; cbn; ring. Qed.
+
+Theorem so3_exp_log (r : M3R) : SO3 r -> cos_angle r <> -1 -> so3_expR (so3_logR r) = r.
+Proof.
+  intros Hr Hpi. pose proof (cos_angle_range r Hr) as Rg.
+  unfold so3_logR. set (th := angleR r).
+  assert (Hc : cos th = cos_angle r) by (unfold th, angleR; apply cos_acos; lra).
+  assert (Hth : 0 <= th <= PI) by apply angle_range.
+  destruct (Req_EM_T th 0) as [Z|NZ].
+  - (* angle 0: r = I *)
+    assert (C1 : cos_angle r = 1) by (rewrite <- Hc, Z; apply cos_0).
+    assert (T3 : tr r = 3) by (unfold cos_angle in C1; rnum; lra).
+    destruct Hr as [O _]. rewrite (Orth_tr3_is_I r O T3).
+    unfold so3_expR. replace (theta V0) with 0.
+    2:{ unfold theta. replace (nrm2 V0) with 0 by (lin_unfold; ring). now rewrite sqrt_0. }
+    unfold sinc, cosc. destruct (Req_EM_T 0 0); [|congruence]. lie_unfold. apply M3_ext; cbn; field.
+  - assert (Hlt : th < PI).
+    { destruct (Req_dec th PI) as [E|N]; [|lra]. exfalso. apply Hpi. rewrite <- Hc, E. apply cos_PI. }
+    assert (Hs : 0 < sin th) by (apply sin_gt_0; lra).
+    assert (Hsn : sin th <> 0) by (apply Rgt_not_eq; exact Hs).
+    assert (Hs2 : sin th * sin th = 1 - cos_angle r * cos_angle r).
+    { pose proof (sin2_cos2 th) as S. unfold Rsqr in S. rewrite Hc in S. lra. }
+    set (k := skew_part r). set (lam := th / sin th).
+    assert (Hk : nrm2 k = sin th * sin th) by (unfold k; rewrite nrm2_skew_part by exact Hr; lra).
+    assert (Hw : theta (vscale lam k) = th).
+    { unfold theta. replace (nrm2 (vscale lam k)) with (th * th).
+      - rewrite sqrt_square; lra.
+      - transitivity (lam * lam * nrm2 k); [|destruct k as [x y z]; lin_unfold; ring].
+        rewrite Hk. unfold lam. field. exact Hsn. }
+    unfold so3_expR. rewrite Hw, rodrigues_vscale. unfold sinc, cosc.
+    destruct (Req_EM_T th 0) as [E|_]; [contradiction|].
+    replace (sin th / th * lam) with 1 by (unfold lam; field; auto).
+    assert (H1c : 1 + cos_angle r <> 0) by lra.
+    replace ((1 - cos th) / (th * th) * lam * lam) with (1 / (1 + cos_angle r)).
+    2:{ unfold lam. rewrite Hc. set (c0 := cos_angle r) in *. set (sn := sin th) in *.
+        field_simplify_eq; [|repeat split; assumption].
+        replace (sn ^ 2) with (sn * sn) by ring. rewrite Hs2. ring. }
+    unfold k. rewrite hat_skew_part, mm_mscale_l, mm_mscale_r, <- (rotation_sym_from_skew r Hr).
+    assert (Ht : tr r + 1 <> 0) by (unfold cos_angle in H1c; rnum; lra).
+    unfold cos_angle. rnum. destruct r as [a b c d e f g h i]. lin_unfold. apply M3_ext; cbn; field; cbn in Ht; lra.
+Qed.
+
 (* ---------- triangle inequality: full statement kept visible, only the degenerate cases proved ---------- *)
 Definition triangle_inequality_statement : Prop :=
   forall a b c : M3R, SO3 a -> SO3 b -> SO3 c -> dist_angle a c <= dist_angle a b + dist_angle b c.
